@@ -426,7 +426,19 @@ func typeEdit(r *rng.R, cs *gen.Case) (kind, where string) {
 				}
 				return "send-all-shape", "send.source>after-nested-caps"
 			}
-			switch r.Intn(4) {
+			switch r.Intn(5) {
+			case 4:
+				// a forbidden allotment that also holds an ill-typed or undeclared address
+				var bad gen.Expr = gen.V("nowhere_declared")
+				if r.Bool() {
+					bad = litOfType(r, r.Pick("number", "string", "monetary", "asset"))
+				}
+				sd.Src = &gen.SrcAllot{Items: []*gen.SrcAllotItem{{A: &gen.AllotLit{Lit: &gen.Ratio{Text: "1/2"}}, From: &gen.SrcAccount{E: bad}}, {A: &gen.AllotRemaining{}, From: gen.SA("b")}}}
+				if r.Bool() {
+					sd.Src.(*gen.SrcAllot).Items[0], sd.Src.(*gen.SrcAllot).Items[1] = sd.Src.(*gen.SrcAllot).Items[1], sd.Src.(*gen.SrcAllot).Items[0]
+					sd.Src.(*gen.SrcAllot).Items[0].A, sd.Src.(*gen.SrcAllot).Items[1].A = sd.Src.(*gen.SrcAllot).Items[1].A, sd.Src.(*gen.SrcAllot).Items[0].A
+				}
+				return "send-all-shape+bad-address", "send.source>allot"
 			case 0:
 				sd.Src = &gen.SrcAllot{Items: []*gen.SrcAllotItem{{A: &gen.AllotLit{Lit: &gen.Ratio{Text: "1/2"}}, From: gen.SA("a")}, {A: &gen.AllotRemaining{}, From: gen.SA("b")}}}
 			case 1:
@@ -532,6 +544,14 @@ func runC17(c *fw.Ctx) {
 		kind, where := typeEdit(c.Rng(id+"/edit"), cs)
 		if kind == "" {
 			continue
+		}
+		if i%8 == 3 {
+			// a second edit on top of the first: two faults in one script (one may hide the other
+			// from the checker, the run still meets whichever comes first)
+			if k2, w2 := typeEdit(c.Rng(id+"/edit2"), cs); k2 != "" {
+				kind, where = kind+"+"+k2, where+"+"+w2
+				c.Count("scripts_with_two_edits", 1)
+			}
 		}
 		if i%16 == 5 {
 			// many statements that each draw a warning (and run fine) come before the edited script
